@@ -13,7 +13,16 @@
     - [roots_rel P roots roots']: same container shape (None / list / dict
       with the same keys in the same positions) and [P u u'] position-wise;
     - [same_fun s r u u']: [u'] is a reference of [r] and
-      [∀ ρ, denv r u' ρ = denv s u ρ] (same function of the variable NAMES). *)
+      [∀ ρ, denv r u' ρ = denv s u ρ] (same function of the variable NAMES).
+
+    The loader (since its repair in dd) rebuilds every node of the file with
+    [ite(var at level_map[level], high, low)] instead of [find_or_add], and
+    runs the node loop with reordering requests disabled.  Hence (i) the
+    variable order of the receiver need not be that of the file
+    ([levels=False]: [C12_pickle_roundtrip_other_order],
+    [C12_pickle_roundtrip_any], [C12_pickle_roundtrip_fresh_names]); (ii) no
+    theorem below assumes [last_len = None]: dynamic reordering may be
+    enabled in the receiver, the threshold is restored by the load. *)
 From DD Require Import Pickle.
 Local Open Scope string_scope.
 
@@ -31,27 +40,86 @@ Theorem C12_pickle_roundtrip_fresh s roots order vorder pf sd :
     roots_rel (same_fun s s1) roots roots'.
 Proof. exact (pickle_roundtrip_fresh s roots order vorder pf sd). Qed.
 
-(** ** Loading into the manager that wrote the file (dynamic reordering
-    disabled): exactly the dumped references come back and the manager is
-    untouched. *)
+(** ** Loading into the manager that wrote the file, dynamic reordering
+    enabled or not: exactly the dumped references come back (the manager is
+    canonical), the manager only grows (the loader creates the variable nodes
+    and fills the computed table; [extends]: the nodes of [s] are kept, same
+    variable order; [frame]: [last_len], the reordering context, the roots
+    and the oracle tape are unchanged). *)
 Theorem C12_pickle_roundtrip_same s roots order vorder pf sd :
-  Inv s → last_len s = None → Forall (valid s) (roots_values roots) →
+  Inv s → Forall (valid s) (roots_values roots) →
   dump_pickle roots order vorder s = (Ok pf, sd) →
-  sd = s ∧ load_pickle pf true s = (Ok roots, s).
+  sd = s ∧
+  ∃ s', load_pickle pf true s = (Ok roots, s') ∧
+    Inv s' ∧ extends s s' ∧ frame s s' ∧ last_len s' = last_len s.
 Proof. exact (pickle_roundtrip_same s roots order vorder pf sd). Qed.
 
-(** ** Loading into any consistent manager [r] with the same variable order
-    (reordering disabled): [r] only grows ([extends]) and the roots denote the
-    same functions. *)
+(** ** Loading with [levels=True] into any consistent manager [r] with the
+    same variable order (dynamic reordering enabled or not): [r] only grows
+    and the roots denote the same functions. *)
 Theorem C12_pickle_roundtrip_into s roots order vorder pf sd r :
   Inv s → Forall (valid s) (roots_values roots) →
   dump_pickle roots order vorder s = (Ok pf, sd) →
-  Inv r → vars r = vars s → lvl2var r = lvl2var s → last_len r = None →
+  Inv r → vars r = vars s → lvl2var r = lvl2var s →
   sd = s ∧
   ∃ roots' r', load_pickle pf true r = (Ok roots', r') ∧
-    Inv r' ∧ extends r r' ∧ frame r r' ∧
+    Inv r' ∧ extends r r' ∧ frame r r' ∧ last_len r' = last_len r ∧
     roots_rel (same_fun s r') roots roots'.
 Proof. exact (pickle_roundtrip_into s roots order vorder pf sd r). Qed.
+
+(** ** Loading with [levels=False] into any consistent manager [r] that
+    declares every variable of the file, in ANY order, and possibly other
+    variables (dynamic reordering enabled or not): the load succeeds, [r]
+    only grows, keeps ITS variable order and its threshold, and the roots
+    denote the same functions of the variable names.  No side condition on
+    the oracle fields ([tape], [trig]) is needed: the node loop runs with
+    requests disabled, so it reads neither. *)
+Theorem C12_pickle_roundtrip_other_order s roots order vorder pf sd r :
+  Inv s → Forall (valid s) (roots_values roots) →
+  dump_pickle roots order vorder s = (Ok pf, sd) →
+  Inv r → dom (vars s) ⊆ dom (vars r) →
+  sd = s ∧
+  ∃ roots' r', load_pickle pf false r = (Ok roots', r') ∧
+    Inv r' ∧ extends r r' ∧ frame r r' ∧
+    vars r' = vars r ∧ lvl2var r' = lvl2var r ∧ last_len r' = last_len r ∧
+    roots_rel (same_fun s r') roots roots'.
+Proof. exact (pickle_roundtrip_other_order s roots order vorder pf sd r). Qed.
+
+(** ** Loading with [levels=False] into ANY consistent manager [r], whatever
+    variables it declares: the variables of [r] keep their levels
+    ([vars r ⊆ vars r']), the variables of the file that [r] does not know
+    are declared below them — in the iteration order [vorder] of the file
+    when [r] knows none of them —, every reference of [r] keeps its meaning,
+    and the roots denote the same functions of the variable names.  ([r'] is
+    not an extension of [r] in general: declaring a variable moves the
+    terminal node one level down.) *)
+Theorem C12_pickle_roundtrip_any s roots order vorder pf sd r :
+  Inv s → Forall (valid s) (roots_values roots) →
+  dump_pickle roots order vorder s = (Ok pf, sd) →
+  Inv r →
+  sd = s ∧
+  ∃ roots' r', load_pickle pf false r = (Ok roots', r') ∧
+    Inv r' ∧ frame r r' ∧ last_len r' = last_len r ∧
+    vars r ⊆ vars r' ∧ dom (vars r') = dom (vars r) ∪ dom (vars s) ∧
+    (∀ u, valid r u → valid r' u ∧ ∀ ρ, denv r' u ρ = denv r u ρ) ∧
+    roots_rel (same_fun s r') roots roots' ∧
+    (dom (vars s) ⊆ dom (vars r) → extends r r') ∧
+    (dom (vars s) ## dom (vars r) →
+     ∀ k v, vorder !! k = Some v → vars r' !! v = Some (nvars r + k)).
+Proof. exact (pickle_roundtrip_any s roots order vorder pf sd r). Qed.
+
+(** ** Loading with [levels=False] into a FRESH manager: the variables are
+    declared in the iteration order [vorder] of the file's [vars] dict,
+    whatever their levels in the source. *)
+Theorem C12_pickle_roundtrip_fresh_names s roots order vorder pf sd :
+  Inv s → Forall (valid s) (roots_values roots) →
+  dump_pickle roots order vorder s = (Ok pf, sd) →
+  sd = s ∧
+  ∃ roots' s1, load_pickle pf false init = (Ok roots', s1) ∧
+    Inv s1 ∧ dom (vars s1) = dom (vars s) ∧
+    (∀ k v, vorder !! k = Some v → vars s1 !! v = Some k) ∧
+    roots_rel (same_fun s s1) roots roots'.
+Proof. exact (pickle_roundtrip_fresh_names s roots order vorder pf sd). Qed.
 
 (** ** Whole-manager pickle: [_load_manager] (whatever manager [s0] it
     replaces) restores every table; the computed table is empty and dynamic
@@ -95,19 +163,21 @@ Example C12_nonvacuous :
   (* fresh manager 1: other node numbers, same functions *)
   let w1 := fst (step2 ex_world 1 (O1 (ONew []))) in
   snd (step2 w1 1 (OLoad 0 true))
-    = Ok (VL [VL [VN 7; VZ (-5)]; VL [VN 3; VZ 6]; VL [VN 9; VZ (-1)]]) ∧
+    = Ok (VL [VL [VN 7; VZ (-7)]; VL [VN 3; VZ 6]; VL [VN 9; VZ (-1)]]) ∧
   (let s1 := world2_get (fst (step2 w1 1 (OLoad 0 true))) 1 in
-   (denv s1 (-5) <$> names3) = (denv s (-8) <$> names3) ∧
+   (denv s1 (-7) <$> names3) = (denv s (-8) <$> names3) ∧
    (denv s1 6 <$> names3) = (denv s 3 <$> names3) ∧
    (denv s (-8) <$> names3) = [false; false; false; true; false; true; false; false] ∧
-   bool_decide (vars s1 = vars s) = true ∧ len s1 = 6) ∧
+   (* the 6 nodes of the file and the variable node of v0, which the
+      loader creates for [ite] *)
+   bool_decide (vars s1 = vars s) = true ∧ len s1 = 7) ∧
   (* roots=None: the whole table, load returns None *)
   snd (step2 w1 1 (OLoad 1 true)) = Ok VU ∧
   len (world2_get (fst (step2 w1 1 (OLoad 1 true))) 1) = 8 ∧
-  (* same manager: the same references, nothing changes *)
+  (* same manager: the same references, no new node *)
   snd (step2 ex_world 0 (OLoad 0 true))
     = Ok (VL [VL [VN 7; VZ (-8)]; VL [VN 3; VZ 3]; VL [VN 9; VZ (-1)]]) ∧
-  digest (world2_get (fst (step2 ex_world 0 (OLoad 0 true))) 0) = digest s ∧
+  bool_decide (succ (world2_get (fst (step2 ex_world 0 (OLoad 0 true))) 0) = succ s) = true ∧
   (* whole manager into manager 2 *)
   snd (step2 ex_world 2 (OLoadManager 5)) = Ok VU ∧
   (let s2 := world2_get (fst (step2 ex_world 2 (OLoadManager 5))) 2 in
@@ -118,11 +188,52 @@ Example C12_nonvacuous :
   snd (step2 ex_world 0 (ODump 3 (RList [8%Z]) [8; 1]%positive [0; 1; 2])) = Err EOracle.
 Proof. by vm_compute. Qed.
 
-(** The hypothesis [last_len s = None] of [C12_pickle_roundtrip_same] is
-    needed: with dynamic reordering enabled [_load] calls [find_or_add]
-    outside [_try_to_reorder], so the reordering request escapes to the caller
-    (known finding, cf. C09). *)
-Example C12_reordering_request_escapes :
+(** Dynamic reordering ENABLED in the manager that loads its own file (the
+    threshold 1 is exceeded by the 8 nodes of the manager, so every
+    [find_or_add] outside the guard would raise the request): the load
+    returns the dumped references and the threshold is still [Some 1].
+    (Before the repair of dd the internal [_NeedsReordering] escaped to the
+    caller here.) *)
+Example C12_load_with_reordering_enabled :
   let w := fst (step2 ex_world 0 (O1 (OSetLastLen (Some 1)))) in
-  snd (step2 w 0 (OLoad 0 true)) = Err ENeedsReordering.
+  snd (step2 w 0 (OLoad 0 true))
+    = Ok (VL [VL [VN 7; VZ (-8)]; VL [VN 3; VZ 3]; VL [VN 9; VZ (-1)]]) ∧
+  last_len (world2_get (fst (step2 w 0 (OLoad 0 true))) 0) = Some 1.
+Proof. by vm_compute. Qed.
+
+(** Another variable ORDER.  Manager 3 declares v2:0, v1:1, v3:2, v0:3 (the
+    file has v1:0, v0:1, v2:2), holds two nodes and has dynamic reordering
+    enabled.  Loading file 0 with [levels=False]: other references, the same
+    truth tables by NAME; the order and the threshold of manager 3 are
+    unchanged.  With [levels=True] the same load is refused ([ValueError]:
+    the levels of the file contradict those of the manager).  Into the fresh
+    manager 4 the variables are declared in the file's iteration order
+    [2; 0; 1]. *)
+Definition ex_world3 : world2 :=
+  fold_left (fun w o => fst (step2 w 3 o))
+    [O1 (ONew [(0, 3); (1, 1); (2, 0); (3, 2)]); O1 (OVar 3); O1 (OVar 0);
+     O1 (OSetLastLen (Some 1))]
+    ex_world.
+
+Example C12_other_order :
+  let s := world2_get ex_world 0 in
+  let r := world2_get ex_world3 3 in
+  snd (step2 ex_world3 3 (OLoad 0 false))
+    = Ok (VL [VL [VN 7; VZ (-9)]; VL [VN 3; VZ 7]; VL [VN 9; VZ (-1)]]) ∧
+  (let r' := world2_get (fst (step2 ex_world3 3 (OLoad 0 false))) 3 in
+   (denv r' (-9) <$> names3) = (denv s (-8) <$> names3) ∧
+   (denv r' 7 <$> names3) = (denv s 3 <$> names3) ∧
+   (denv s (-8) <$> names3) = [false; false; false; true; false; true; false; false] ∧
+   (denv s 3 <$> names3) = [false; false; true; true; false; false; true; true] ∧
+   map_to_list (vars r') = [(0, 3); (1, 1); (3, 2); (2, 0)] ∧
+   bool_decide (vars r' = vars r ∧ lvl2var r' = lvl2var r ∧ succ r ⊆ succ r') = true ∧
+   last_len r' = Some 1 ∧ len r = 3 ∧ len r' = 9) ∧
+  snd (step2 ex_world3 3 (OLoad 0 true)) = Err EValue ∧
+  (let w4 := fst (step2 ex_world 4 (O1 (ONew []))) in
+   snd (step2 w4 4 (OLoad 0 false))
+     = Ok (VL [VL [VN 7; VZ (-8)]; VL [VN 3; VZ 6]; VL [VN 9; VZ (-1)]]) ∧
+   let s4 := world2_get (fst (step2 w4 4 (OLoad 0 false))) 4 in
+   map_to_list (vars s4) = [(0, 1); (1, 2); (2, 0)] ∧
+   (denv s4 (-8) <$> names3) = (denv s (-8) <$> names3) ∧
+   (denv s4 6 <$> names3) = (denv s 3 <$> names3)).
 Proof. by vm_compute. Qed.
